@@ -736,8 +736,13 @@ def run_history(case):
       aborted_once.append(1)
       threading.Thread(target=holder['t'].abort_from_sig_int,
                        name='vf-abort').start()
-      while True:
+      # waits to be killed by the abort; CPython drops an asynchronous exception
+      # that arrives inside a finalizer, so the wait is bounded (the run is
+      # aborted either way) instead of hanging the case
+      t_end = time.monotonic() + 10
+      while time.monotonic() < t_end:
         time.sleep(0.002)
+      return None
     special = [abort_phase]
   elif extra == 'late_registration':
     # the last callback is registered while the test is running (a phase that
